@@ -151,19 +151,19 @@ async fn scenario(role: Role, rng: &mut Rng, ch: &mut dyn Choose, long_completed
             }
         }
         payload_lens.push(plen);
-        app.log(Ev::PeerSent(crate::map::brief(&pkt)));
+        app.log_peer(&pkt);
         o.sent += 1;
         if rng.chance(1, 3) && bytes.len() > 10 {
             // trickle: the payload streams to the handler
             o.streamed += 1;
             let cut = 6 + rng.usize(bytes.len() - 8);
-            c.peer.write_quiet(&bytes[..cut]);
+            c.peer.write_part(&bytes[..cut]);
             if ch.chance(1, 2) {
                 c.settle().await;
             }
-            c.peer.write_quiet(&bytes[cut..]);
+            c.peer.write_part(&bytes[cut..]);
         } else {
-            c.peer.write_quiet(&bytes);
+            c.peer.write_part(&bytes);
         }
         if certain_excess_now {
             // the excess must be seen by the endpoint in exactly this state
